@@ -42,6 +42,10 @@ CHECKS = {
          "Exploration, exhaustive over the finite domain for the function/by_name paths and the category laws (exhaustive: true); the VM path is exhaustive in the thorough tier and covers all boundary scalars +-1 and every 61st scalar in the quick tier.",
          "Group membership table written from UAX #44 in the harness; says nothing about whether the tables match a particular Unicode version. The derive path is covered by C02.",
          "DESIGN.md section 4, C16"),
+ "C18": ("differential against a hand-written RFC 8259 recogniser over ABNF-generated documents, their one-edit neighbours, token soup and a near-miss catalogue",
+         "Exploration: 150k generated valid documents + 450k one-edit neighbours + 75k token-soup strings (quick); accept/reject must agree and accepted token trees must mirror the recogniser's value tree with exact spans.",
+         "Trusts the ~150-line recogniser in harness/pv/src/c18.rs as the reading of the RFC; invalid UTF-8 cannot be expressed as &str and is out of scope.",
+         "DESIGN.md section 4, C18"),
 }
 NA_REASON = "check not built yet (work in progress; see DESIGN.md section 9 build order)"
 
